@@ -115,15 +115,14 @@ sexp sexp_hash_by_identity (sexp ctx, sexp self, sexp_sint_t n, sexp obj, sexp b
 }
 
 static sexp sexp_get_bucket (sexp ctx, sexp buckets, sexp hash_fn, sexp obj) {
-  sexp_gc_var1(args);
-  sexp res;
+  sexp_gc_var2(args, res);
   sexp_uint_t len = sexp_vector_length(buckets);
   if (hash_fn == SEXP_ONE)
     res = sexp_hash_by_identity(ctx, NULL, 2, obj, sexp_make_fixnum(len));
   else if (hash_fn == SEXP_TWO)
     res = sexp_hash(ctx, NULL, 2, obj, sexp_make_fixnum(len));
   else {
-    sexp_gc_preserve1(ctx, args);
+    sexp_gc_preserve2(ctx, args, res);
     args = sexp_list2(ctx, obj, sexp_make_fixnum(len));
     res = sexp_apply(ctx, hash_fn, args);
     if (sexp_exceptionp(res)) {
